@@ -183,9 +183,23 @@ def _request(M: _Memo, kind: str, cfg: dict) -> dict:
     st["indep"].clear()
     try:
         p = make_provider(kind, cfg)
+        # A request is often DERIVED from an earlier one (provider.model_copy(update=...) in an editor session): every second request of a
+        # kind is the previously served provider object copied with exactly the fields that changed.  Field for field it is the provider
+        # built from scratch, so it must be served like it (whatever the earlier object cached for itself must not travel along).
+        prev = getattr(M, "prev_provider", {}).get(kind)
+        M.derived = False
+        if prev is not None and (getattr(M, "n_req", 0) % 2 == 1):
+            changed = {f: getattr(p, f) for f in type(p).model_fields if getattr(p, f) != getattr(prev, f)}
+            q = prev.model_copy(update=changed)
+            if all(getattr(q, f) == getattr(p, f) for f in type(p).model_fields):
+                p, M.derived = q, True
+        M.n_req = getattr(M, "n_req", 0) + 1
         ikey = M.m._compute_memo_key(p)
         env = M.m.compute_environment(p)
         got_env, got_err = env_json(env), None
+        if not hasattr(M, "prev_provider"):
+            M.prev_provider = {}
+        M.prev_provider[kind] = p
     except Exception as e:
         got_env, got_err, ikey = None, type(e).__name__, None
     after = M.entries()
@@ -193,7 +207,7 @@ def _request(M: _Memo, kind: str, cfg: dict) -> dict:
         "got_err": got_err, "env_equal": got_env == want_env, "ikey": ikey,
         "entries_before": len(keys_before), "entries_after": len(after),
         "memo_computations": len(st["memo"]), "indep_computations": len(st["indep"]),
-        "want_memo": want_memo, "want_indep": want_indep,
+        "want_memo": want_memo, "want_indep": want_indep, "derived_by_model_copy": getattr(M, "derived", False),
     })
     if got_env != want_env:
         rec["got_env"], rec["want_env"] = got_env, want_env
